@@ -344,6 +344,28 @@ def check_duplicates(run, f, rule='R7'):
                         run.violation(rule, f.key, 'unused element ' + src(x, 60), 'the comprehension unpacks %s from its iterable but the element expression does '
                                       'not use %s: one of the paired sequences has no influence on the result' % (', '.join(t.id for t in g.target.elts),
                                                                                                               '/'.join(unused)), f=f, node=x)
+    # an if / elif chain that tests the same condition twice: the second arm can never be taken (one of the two tests was meant to be another)
+    from ..astutil import if_chain
+    seen_chain = set()
+    for x in own_walk(f.node):
+        if isinstance(x, ast.If) and id(x) not in seen_chain:
+            arms, els = if_chain(x)
+            node_ = x
+            while True:
+                seen_chain.add(id(node_))
+                if len(node_.orelse) == 1 and isinstance(node_.orelse[0], ast.If):
+                    node_ = node_.orelse[0]
+                else:
+                    break
+            if len(arms) >= 2:
+                n += 1
+                tests = [ast.dump(t) for (t, _) in arms if t is not None]
+                for i_, t_ in enumerate(tests):
+                    if t_ in tests[:i_] and not any(isinstance(y, ast.Call) for y in ast.walk(arms[i_][0])):
+                        found = True
+                        run.violation(rule, f.key, 'repeated test ' + src(arms[i_][0], 40), 'the chain tests `%s` twice: the second arm is unreachable, so the case '
+                                      'it was written for falls into the first arm (or into the else)' % src(arms[i_][0], 40), f=f, node=arms[i_][0])
+                        break
     # distinct locals that read the SAME constant-indexed element / row / column of one array (v2 = p[:, 1]; v3 = p[:, 1]): one of the
     # elements meant to be read is never read
     sel = {}
